@@ -339,6 +339,11 @@ def run(ctx):
     db, rep = ctx.db, ctx.report
     prog = db.program('qmail-local')
     r1 = rep.rule('C12.1-maildir-atomic', 'R-TYPESTATE', 'maildir_child: tmp file created exclusively under a timer, written (Return-Path, Delivered-To, message), flushed, fsynced and closed before link(tmp,new); exit 0 only after a successful link; every failure removes the tmp file')
+    # the two lines in front of the message: built by qmail-local's main from its arguments, newlines replaced (explored concretely)
+    from rules import C13 as _c13
+    _mps = _c13.main_prefix_sites(db, rep, prog)
+    for k_ in ('newline-scrub-covers-the-whole-dtline', 'newline-scrub-covers-the-whole-rpline'):
+        r1.check(_mps[k_][0], k_, _mps[k_][1], _mps[k_][2], _mps[k_][3])
     mc = prog.fn('maildir_child', 'qmail-local.c')
     H = MaildirHooks('qmail-local.c:maildir_child')
     eng = Engine(db, prog, H)
